@@ -148,6 +148,13 @@ class Scalar(V):
         return f"Scalar({self.z})"
 
 
+class LiteralTable(V):
+    """{"const": expr, ...} dict literal, unevaluated (e.g. a name -> class dispatch table that the analysed path never consults)"""
+
+    def __init__(self, node):
+        self.node = node
+
+
 class NoneV(V):
     def __repr__(self):
         return "NoneV"
@@ -808,8 +815,10 @@ class Executor:
         pre = st.fork()
         try:
             return self._exec_stmt(node, st)
-        except Unsupported:
+        except Unsupported as e:
             if self.dry:
+                if os.environ.get("PYVC_DEBUG"):
+                    print(f"[dry] line {getattr(node, 'lineno', '?')}: {e}")
                 return [(st, NORMAL)]
             raise
         except Raised as r:
@@ -1610,6 +1619,9 @@ class Executor:
 
     def ex_Dict(self, node, st):
         if node.keys:
+            if all(isinstance(k, ast.Constant) and isinstance(k.value, str) for k in node.keys):
+                # a literal table {"name": expr, ...}: kept unevaluated; any use other than being bound to a name leaves the subset
+                return LiteralTable(node)
             raise Unsupported("non-empty dict literal")
         return DictV(None, "scalar", None, None)
 
@@ -2041,6 +2053,8 @@ class Executor:
                 if isinstance(a, ast.Starred):
                     v = self.ev(a.value, st)
                     items = v.items if isinstance(v, (TupleV, Coll)) else None
+                    if isinstance(v, Scalar) and is_tuple_sort(v.z.sort()):
+                        items = val_of(v.z).items
                     if items is None:
                         args.append(self.as_coll(v, st))  # abstract *args: passed as the collection itself
                     else:
@@ -2361,10 +2375,31 @@ class Executor:
             # arg-min/arg-max over a collection: modelled as *some* member (sound over-approximation of the choice)
             c = self.as_coll(args[0], st)
             if c.mem is None:
+                if "default" in kwargs:
+                    return kwargs["default"]
                 raise Unsupported("min/max of an empty literal")
-            self.oblige(st, nonempty(c.mem, c.esort), f"{name}-nonempty")
+            ne = nonempty(c.mem, c.esort)
+            if "default" in kwargs:
+                # max(it, default=d): d exactly when the iterable is empty (the path is split on emptiness when open)
+                if self.dry:
+                    pass   # type-inference run: follow the non-empty side
+                elif self.entails(st, z3.Not(ne), 2000):
+                    return kwargs["default"]
+                elif not self.entails(st, ne, 2000):
+                    raise NeedSplit(ne)
+            else:
+                self.oblige(st, ne, f"{name}-nonempty")
             x = fresh(name, c.esort)
             st.assume(c.mem[x])
+            key = kwargs.get("key")
+            if isinstance(key, Closure) and isinstance(key.fdef, ast.Lambda):
+                # the result is extremal for the key among the members (which of several extremal ones is not modelled)
+                y = fresh("y", c.esort)
+                ky, kx = z3_of(self.inline(key, [val_of(y)], {}, st)), z3_of(self.inline(key, [val_of(x)], {}, st))
+                if ky.sort() in (I, R):
+                    st.assume(z3.ForAll([y], z3.Implies(c.mem[y], (ky <= kx) if name == "max" else (kx <= ky))))
+                    self.assumed.add("min()/max() with a numeric key lambda returns a member that is extremal for the key (which one of several is not modelled)")
+                    return val_of(x)
             self.assumed.add("min()/max() over a collection returns an arbitrary member (which one is not modelled)")
             return val_of(x)
         if name == "filter" and len(args) == 2 and isinstance(args[0], Closure):
@@ -2389,7 +2424,9 @@ class Executor:
             return DictV(None, "scalar", None, None)
         if name in ("str",) and isinstance(args[0], Scalar):
             return args[0]
-        raise Unsupported(f"builtin {name}")
+        if name == "int" and len(args) == 1 and isinstance(args[0], Scalar) and args[0].z.sort() == I:
+            return args[0]
+        raise Unsupported(f"builtin {name} on {[type(a).__name__ for a in args]} {sorted(kwargs)}")
 
     def isinstance_(self, v, tnode, st):
         names = []
@@ -2441,6 +2478,17 @@ class Executor:
                 return NONE
             raise Unsupported(f"emission target used for {name} inside a summarised loop")
         es = c.esort
+        if name == "append" and getattr(c, "maxlen", None) is not None:
+            # collections.deque(maxlen=n).append(x): with n == 0 nothing is kept; otherwise old entries may drop out on the left:
+            # afterwards the content is some subset of old + {x} (which entries survive is not modelled)
+            z = z3_of(args[0])
+            if c.mem is None:
+                c.esort, c.mem = z.sort(), empty_set(z.sort())
+            y = fresh("y", c.esort)
+            new = fresh("deque", set_sort(c.esort))
+            st.assume(z3.ForAll([y], z3.Implies(new[y], z3.And(c.maxlen != 0, z3.Or(c.mem[y], deq(y, z))))))
+            c.mem, c.items, c.nodup, c.len_z, c.seq = new, None, False, None, None
+            return NONE
         if name == "add" or name == "append":
             z = z3_of(args[0])
             if c.mem is None:
